@@ -107,3 +107,114 @@ def obligations_for(prop, repo, cdb):
         out.append(("ground:table-monotone:MAX_ENUM_TO_VERSION", _monotone(repo, "MAX_ENUM_TO_VERSION")))
         out.append(("ground:table-monotone:PE_EXPORT_STAMP_TO_VERSION", _monotone(repo, "PE_EXPORT_STAMP_TO_VERSION")))
     return out
+
+
+# --------------------------------------------------------------------------- profile grammar invariants (C10, C11, C13)
+# The grammar is finite: these facts are computed exhaustively from the compiled rule list of c2profile.lark (read with
+# lark's own loader on every run) and from the class bodies of c2profile.py / the BeaconGate tables of beacon.py.
+
+def _grammar(repo):
+    import os
+    from lark import Lark
+    return Lark.open(os.path.join(repo.root, "dissect", "cobaltstrike", "c2profile.lark"), parser="lalr", maybe_placeholders=False)
+
+
+def _keyword_seq(P, r):
+    """terminal sequence of an expansion with anonymous keyword terminals replaced by their text"""
+    terms = {t.name: t for t in P.terminals}
+    out = []
+    for s in r.expansion:
+        if s.is_term and type(terms[s.name].pattern).__name__ == "PatternStr":
+            out.append(terms[s.name].pattern.value)
+        else:
+            out.append("<" + s.name + ">")
+    return tuple(out)
+
+
+def _alias_unique(repo):
+    def run():
+        P = _grammar(repo)
+        seen, bad = {}, []
+        for r in P.rules:
+            if r.alias is None:
+                continue
+            # ignore the optional / starred sub-rule when comparing: keyword terminals identify the statement
+            kws = tuple(x for x in _keyword_seq(P, r) if not x.startswith("<__"))
+            key = (str(r.origin.name), r.alias)
+            if key in seen and seen[key] != kws and [k for k in kws if not k.startswith("<")] != [k for k in seen[key] if not k.startswith("<")]:
+                bad.append({"rule": key[0], "alias": r.alias, "expansions": [list(seen[key]), list(kws)]})
+            seen.setdefault(key, kws)
+        return not bad, {"backend": "ground (compiled rule list of c2profile.lark)", "rules": len(P.rules), "failed": bad[:5]}
+    return run
+
+
+def _class_attrs(repo, cls):
+    import ast
+    m = repo.module("dissect.cobaltstrike.c2profile")
+    node = m.classes[cls]
+    out = {}
+    for st in node.body:
+        if isinstance(st, ast.Assign) and isinstance(st.targets[0], ast.Name) and isinstance(st.value, ast.Attribute):
+            out[st.targets[0].id] = st.value.attr
+    return out
+
+
+def _builder_matches(repo, cls, rule):
+    def run():
+        P = _grammar(repo)
+        attrs = _class_attrs(repo, cls)
+        arity = {}
+        for r in P.rules:
+            if str(r.origin.name) == rule and r.alias:
+                arity[r.alias] = sum(1 for s in r.expansion if not s.is_term and s.name == "string")
+        want = {"_enable": 0, "set_option": 1, "_pair": 2, "_header": 2, "_parameter": 2}
+        bad = []
+        for a, kind in attrs.items():
+            if a not in arity:
+                bad.append({"builder_attribute": a, "problem": f"no expansion of `{rule}` has this alias"})
+            elif want.get(kind) != arity[a]:
+                bad.append({"builder_attribute": a, "kind": kind, "grammar_arity": arity[a]})
+        for a in arity:
+            if a not in attrs:
+                bad.append({"alias": a, "problem": f"class {cls} has no builder attribute for this statement"})
+        return not bad, {"backend": "ground (class body vs rule list)", "attributes": len(attrs), "aliases": len(arity), "failed": bad[:6]}
+    return run
+
+
+def _beacon_gate_names(repo):
+    def run():
+        import ast
+        P = _grammar(repo)
+        aliases, keywords = set(), {}
+        terms = {t.name: t for t in P.terminals}
+        for r in P.rules:
+            if str(r.origin.name) == "beacon_gate_options":
+                aliases.add(r.alias)
+                keywords[r.alias] = terms[r.expansion[0].name].pattern.value
+        m = repo.module("dissect.cobaltstrike.beacon")
+        src = open(m.path).read() if hasattr(m, "path") else ""
+        names = set()
+        # every name the configuration decoder can print: string literals of beacon_gate_options_string and the flag fields
+        fdef = m.funcs.get("beacon_gate_options_string")
+        for n in ast.walk(fdef):
+            if isinstance(n, ast.Constant) and isinstance(n.value, str) and n.value and n.value[0].isupper() and n.value.isalnum():
+                names.add(n.value)
+        bad = [{"name": n, "problem": "no beacon_gate statement with alias " + n.lower()} for n in sorted(names) if n.lower() not in aliases]
+        bad += [{"alias": a, "keyword": k, "problem": "alias is not the lower-cased keyword"} for a, k in keywords.items() if k.lower() != a]
+        return not bad, {"backend": "ground (names printed by beacon_gate_options_string vs grammar aliases)", "names": len(names),
+                         "failed": bad[:6]}
+    return run
+
+
+_old3 = obligations_for
+
+
+def obligations_for(prop, repo, cdb):
+    out = _old3(prop, repo, cdb)
+    if prop in ("C10", "C13", "C11"):
+        out.append(("ground:grammar-alias-identifies-statement", _alias_unique(repo)))
+    if prop in ("C11", "C13"):
+        out.append(("ground:builder-matches-grammar:BeaconGateBlock", _builder_matches(repo, "BeaconGateBlock", "beacon_gate_options")))
+        out.append(("ground:builder-matches-grammar:ExecuteOptionsBlock", _builder_matches(repo, "ExecuteOptionsBlock", "execute_options")))
+        out.append(("ground:beacon-gate-names-have-statements", _beacon_gate_names(repo)))
+    return out
